@@ -212,6 +212,57 @@ func c12Run(c *engine.Ctx) {
 			c12Exec(c, c12Case{Pts: v})
 		}
 	})
+	// long segments crossing properly at a very small angle on the grid up to 2^20: the second
+	// segment runs from a lattice neighbour of one end of the first to a lattice neighbour of the
+	// other end, on opposite sides (badly conditioned: the crossing point must still be within
+	// rounding distance); all 8 role/direction variants, 8 symmetries of the plane
+	type lc struct{ a1, a2, b1, b2 [2]float64 }
+	var lcs []lc
+	shifts := [][2]float64{{0, 1}, {1, 0}, {1, 1}, {0, 3}, {2, 1}, {-1, 2}, {5, 0}, {0, 17}, {40, 33}}
+	for _, o := range [][2]float64{{0, 0}, {769, 123}, {3, 1<<19 + 5}} {
+		for _, d := range [][2]float64{{1 << 20, -(1<<20 - 1)}, {1<<20 - 1, 7}, {599287, -738262}, {835839, -920033}, {349525, 1 << 20}, {1 << 20, 1 << 20}, {1000003, 2}, {633566, -632858}} {
+			for _, s1 := range shifts {
+				for _, s2 := range shifts {
+					a1 := o
+					a2 := [2]float64{o[0] + d[0], o[1] + d[1]}
+					lcs = append(lcs, lc{a1, a2, [2]float64{a1[0] + s1[0], a1[1] + s1[1]}, [2]float64{a2[0] - s2[0], a2[1] - s2[1]}})
+				}
+			}
+		}
+	}
+	c.Note("long_small_angle_configurations", len(lcs))
+	c.Parallel(len(lcs), func(i int) {
+		for sym := 0; sym < 8; sym++ {
+			tr := func(p [2]float64) [2]float64 {
+				x, y := p[0], p[1]
+				if sym&1 != 0 {
+					x = (1 << 20) - x
+				}
+				if sym&2 != 0 {
+					y = (1 << 20) - y
+				}
+				if sym&4 != 0 {
+					x, y = y, x
+				}
+				return [2]float64{x, y}
+			}
+			A1, A2, B1, B2 := tr(lcs[i].a1), tr(lcs[i].a2), tr(lcs[i].b1), tr(lcs[i].b2)
+			for variant := 0; variant < 8; variant++ {
+				a1, a2, b1, b2 := A1, A2, B1, B2
+				if variant&1 != 0 {
+					a1, a2 = a2, a1
+				}
+				if variant&2 != 0 {
+					b1, b2 = b2, b1
+				}
+				if variant&4 != 0 {
+					a1, a2, b1, b2 = b1, b2, a1, a2
+				}
+				c.Count("long_small_angle_cases", 1)
+				c12Exec(c, c12Case{Pts: []ref.F{ref.F(a1[0]), ref.F(a1[1]), ref.F(a2[0]), ref.F(a2[1]), ref.F(b1[0]), ref.F(b1[1]), ref.F(b2[0]), ref.F(b2[1])}})
+			}
+		}
+	})
 	// mixed-magnitude exactly collinear triples (S,P,E): P on segment SE, second segment from P
 	mcs := mixedCollinear()
 	c.Parallel(len(mcs), func(i int) {
